@@ -60,16 +60,23 @@ def valSize : Val → Nat
   | .arr _ _ data => data.length
   | _ => 1
 
-/-- `_common_field_length` -/
-def commonFieldLength (c : Cell) (fieldNames : List String) : Except Err Nat := do
-  let lens ← fieldNames.mapM fun f => match Dict.get? c.values f with
-    | some (.arr _ shape data) => if shape.length > 1 then Except.error Err.valueError else .ok data.length
-    | _ => .ok 1
-  let interesting := (lens.filter (· != 1)).eraseDups
-  match interesting with
+/-- the length a field contributes: an array its size (more than one dimension is refused), a
+scalar, `None` or a missing field 1 -/
+def fieldLen (c : Cell) (f : String) : Except Err Nat :=
+  match Dict.get? c.values f with
+  | some (.arr _ shape data) => if shape.length > 1 then .error .valueError else .ok data.length
+  | _ => .ok 1
+
+/-- at most one length other than 1 -/
+def pickLength (lens : List Nat) : Except Err Nat :=
+  match (lens.filter (· != 1)).eraseDups with
   | [] => .ok 1
   | [n] => .ok n
   | _ => .error .valueError
+
+/-- `_common_field_length` -/
+def commonFieldLength (c : Cell) (fieldNames : List String) : Except Err Nat :=
+  (fieldNames.mapM (fieldLen c)).bind pickLength
 
 /-- `float(value)` of a non-array, or element `ndx` of a sample array -/
 def fieldEntry (v : Val) (ndx : Nat) : Except Err (Option Rat) :=
@@ -83,14 +90,19 @@ def fieldEntry (v : Val) (ndx : Nat) : Except Err (Option Rat) :=
     | [q] => .ok (some q)
     | _ => .error .typeError     -- `float(np.array([]))`
 
+/-- one field of one scenario: absent / `None` → no entry -/
+def fieldEntryAt (c : Cell) (ndx : Nat) (f : String) : Except Err (Option (String × Rat)) :=
+  match Dict.get? c.values f with
+  | none => .ok none
+  | some v => (fieldEntry v ndx).map fun o => o.map fun q => (f, q)
+
+/-- the field dict of scenario `ndx` -/
+def fieldDictAt (c : Cell) (fieldNames : List String) (ndx : Nat) : Except Err (Dict Rat) :=
+  (fieldNames.mapM (fieldEntryAt c ndx)).map fun es => es.filterMap id
+
 /-- `_clean_field_dicts` -/
-def cleanFieldDicts (c : Cell) (fieldNames : List String) : Except Err (List (Dict Rat)) := do
-  let n ← commonFieldLength c fieldNames
-  (List.range n).mapM fun ndx => do
-    let es ← fieldNames.mapM fun f => match Dict.get? c.values f with
-      | none => Except.ok none
-      | some v => (fieldEntry v ndx).map fun o => o.map fun q => (f, q)
-    pure (es.filterMap id)
+def cleanFieldDicts (c : Cell) (fieldNames : List String) : Except Err (List (Dict Rat)) :=
+  (commonFieldLength c fieldNames).bind fun n => (List.range n).mapM (fieldDictAt c fieldNames)
 
 def baseDict (c : Cell) : Row :=
   [("period_start", MVal.date c.ps), ("period_end", .date c.pe), ("evaluation_date", .date c.ev)]
@@ -101,12 +113,15 @@ def baseDict (c : Cell) : Row :=
 def metadataDict (c : Cell) (names : List String) : Row :=
   names.map fun n => (n, Row.col (flatDict c.md) n)
 
-/-- `_cell_to_wide_dict`: `{**base, "scenario": ndx + 1, **field_dict, **metadata_dict}` -/
-def cellWideRows (c : Cell) (mdNames fieldNames : List String) : Except Err (List Row) := do
-  let fds ← cleanFieldDicts c fieldNames
-  pure <| (List.zip (List.range fds.length) fds).map fun (ndx, fd) =>
-    Dict.union (Dict.union (baseDict c ++ [("scenario", MVal.num ((ndx : Nat) + 1 : Nat))])
-      (fd.map fun kv => (kv.1, MVal.num kv.2))) (metadataDict c mdNames)
+/-- one wide row: `{**base, "scenario": ndx + 1, **field_dict, **metadata_dict}` -/
+def wideRow (c : Cell) (mdNames : List String) (p : Nat × Dict Rat) : Row :=
+  Dict.union (Dict.union (baseDict c ++ [("scenario", MVal.num ((p.1 : Nat) + 1 : Nat))])
+    (p.2.map fun kv => (kv.1, MVal.num kv.2))) (metadataDict c mdNames)
+
+/-- `_cell_to_wide_dict` -/
+def cellWideRows (c : Cell) (mdNames fieldNames : List String) : Except Err (List Row) :=
+  (cleanFieldDicts c fieldNames).map fun fds =>
+    (List.zip (List.range fds.length) fds).map (wideRow c mdNames)
 
 /-- Python scalars only (`isinstance(v, (float, int))`) -/
 def isConstantField : Val → Bool
@@ -123,15 +138,17 @@ def cellLongRows (c : Cell) (mdNames : List String) : Except Err (List Row) := d
          ("field", MVal.str f), ("value", MVal.num q)]
 
 /-- `_drop_constant_scenario` (`df["scenario"]` on an empty frame raises `KeyError`) -/
+def eraseScenario (r : Row) : Row := r.filter (·.1 != "scenario")
+
+/-- `np.all(scenario[0] == scenario) or np.all(pd.isnull(scenario))` (NaN ≠ NaN) -/
+def scenarioConstant (rows : List Row) (r : Row) : Bool :=
+  (Row.col r "scenario" != .none && (rows.map (Row.col · "scenario")).all (· == Row.col r "scenario")) ||
+  (rows.map (Row.col · "scenario")).all (· == .none)
+
 def dropConstantScenario (rows : List Row) : Except Err (List Row) :=
   match rows with
   | [] => .error .keyError
-  | r :: _ =>
-    let s := rows.map (Row.col · "scenario")
-    let first := Row.col r "scenario"
-    if (first != .none && s.all (· == first)) || s.all (· == .none) then
-      .ok (rows.map fun r => r.filter (·.1 != "scenario"))
-    else .ok rows
+  | r :: _ => if scenarioConstant rows r then .ok (rows.map eraseScenario) else .ok rows
 
 def colsOf (rows : List Row) : List String := rows.foldl (fun acc r => addNew acc (Dict.keys r)) []
 
@@ -215,46 +232,66 @@ def sortGroup (cols : List String) (g : List Row) : Except Err (List Row) :=
     if cols.contains "scenario" then .ok (g.mergeSort scenarioLe) else .error .other
   else .ok g
 
+/-- the value of field `f` from its entries in a group of rows (already scenario-sorted): one row →
+the scalar (NaN → absent), several rows → the sample array; an object array of `None` makes the
+constructor's `astype(float64)` raise -/
+def assembleField (f : String) (es : List (Option Rat)) : Except Err (Option (String × Val)) :=
+  match es with
+  | [e] => .ok (e.map fun q => (f, Val.flt q))
+  | _ => if es.all Option.isSome then .ok (some (f, Val.arr false [es.length] (es.filterMap id)))
+         else .error .typeError
+
+def groupFieldVal (g : List Row) (f : String) : Except Err (Option (String × Val)) :=
+  assembleField f (g.map fun row => mvalNum? (Row.col row f))
+
 /-- cumulative branch of `wide_data_frame_to_triangle`: one cell per group -/
 def wideGroupCell (cols fieldCols detailCols lossDetailCols : List String) (g : List Row) :
-    Except Err Cell := do
-  let g ← sortGroup cols g
+    Except Err Cell :=
+  (sortGroup cols g).bind fun g =>
   match g with
   | [] => .error .other
   | r :: _ =>
-    let md := rowMetadata r detailCols lossDetailCols
-    let vals ← fieldCols.mapM fun f =>
-      let es := g.map fun row => mvalNum? (Row.col row f)
-      match es with
-      | [e] => Except.ok (e.map fun q => (f, Val.flt q))
-      | _ => if es.all Option.isSome then .ok (some (f, Val.arr false [es.length] (es.filterMap id)))
-             else .error .typeError    -- object array of None: `astype(float64)` raises
-    pure { kind := .cumulative, ps := (← mvalDate? (Row.col r "period_start")),
-           pe := (← mvalDate? (Row.col r "period_end")), ev := (← mvalDate? (Row.col r "evaluation_date")),
-           prev := none, values := vals.filterMap id, md := md }
+    (fieldCols.mapM (groupFieldVal g)).bind fun vals =>
+    (mvalDate? (Row.col r "period_start")).bind fun ps =>
+    (mvalDate? (Row.col r "period_end")).bind fun pe =>
+    (mvalDate? (Row.col r "evaluation_date")).bind fun ev =>
+    .ok { kind := .cumulative, ps := ps, pe := pe, ev := ev, prev := none,
+          values := vals.filterMap id, md := rowMetadata r detailCols lossDetailCols }
+
+def wideKey (cols detailCols lossDetailCols : List String) (r : Row) : List MVal :=
+  (groupCols "wide_data_frame_to_triangle" detailCols lossDetailCols).map
+    (keyEntry cols detailCols lossDetailCols r)
+
+def wideGroupToCell (cols fieldCols detailCols lossDetailCols : List String)
+    (g : List MVal × List Row) : Except Err Cell :=
+  (wideGroupCell cols fieldCols detailCols lossDetailCols g.2).bind Cell.mk?
+
+/-- cumulative branch: group by the generated key list, one `CumulativeCell` per group -/
+def fromWideCum (tb : Table) (fieldCols detailCols lossDetailCols : List String) :
+    Except Err (List Cell) :=
+  ((groupBy (wideKey tb.cols detailCols lossDetailCols) tb.rows).mapM
+    (wideGroupToCell tb.cols fieldCols detailCols lossDetailCols)).bind Triangle.ofCells
+
+/-- incremental branch: one `IncrementalCell` per ROW; every present value a 0-d array -/
+def wideIncrCell (fieldCols detailCols lossDetailCols : List String) (r : Row) : Except Err Cell :=
+  (mvalDate? (Row.col r "period_start")).bind fun ps =>
+  (mvalDate? (Row.col r "period_end")).bind fun pe =>
+  (mvalDate? (Row.col r "evaluation_date")).bind fun ev =>
+  (mvalDate? (Row.col r "prev_evaluation_date")).bind fun prev =>
+  Cell.mk? { kind := .incremental, ps := ps, pe := pe, ev := ev, prev := some prev,
+             values := fieldCols.filterMap fun f =>
+               (mvalNum? (Row.col r f)).map fun q => (f, Val.arr false [] [q]),
+             md := rowMetadata r detailCols lossDetailCols }
+
+def fromWideIncr (tb : Table) (fieldCols detailCols lossDetailCols : List String) :
+    Except Err (List Cell) :=
+  (tb.rows.mapM (wideIncrCell fieldCols detailCols lossDetailCols)).bind Triangle.ofCells
 
 /-- `wide_data_frame_to_triangle(df, field_cols, detail_cols, loss_detail_cols)` -/
 def fromWideRows (tb : Table) (fieldCols detailCols lossDetailCols : List String) :
-    Except Err (List Cell) := do
-  if tb.cols.contains "prev_evaluation_date" then
-    -- one IncrementalCell per ROW; every present value a 0-d array
-    let cells ← tb.rows.mapM fun r => do
-      let ps ← mvalDate? (Row.col r "period_start")
-      let pe ← mvalDate? (Row.col r "period_end")
-      let ev ← mvalDate? (Row.col r "evaluation_date")
-      let prev ← mvalDate? (Row.col r "prev_evaluation_date")
-      let values : Dict Val := fieldCols.filterMap fun f =>
-        (mvalNum? (Row.col r f)).map fun q => (f, Val.arr false [] [q])
-      let c : Cell := { kind := .incremental, ps := ps, pe := pe, ev := ev, prev := some prev,
-                        values := values, md := rowMetadata r detailCols lossDetailCols }
-      c.mk?
-    Triangle.ofCells cells
-  else
-    let keys := groupCols "wide_data_frame_to_triangle" detailCols lossDetailCols
-    let groups := groupBy (fun r => keys.map (keyEntry tb.cols detailCols lossDetailCols r)) tb.rows
-    let cells ← groups.mapM fun g => do
-      (← wideGroupCell tb.cols fieldCols detailCols lossDetailCols g.2).mk?
-    Triangle.ofCells cells
+    Except Err (List Cell) :=
+  if tb.cols.contains "prev_evaluation_date" then fromWideIncr tb fieldCols detailCols lossDetailCols
+  else fromWideCum tb fieldCols detailCols lossDetailCols
 
 /-- detail columns of the long reader: every column that is not a core / field / value column -/
 def coreSet : List String :=
